@@ -181,8 +181,10 @@ def reencode(net):
             net._edge[_enc(e)] = type(mem)(_enc(n) for n in mem)
     for e, a in eattr.items():
         net._edge_attr[_enc(e)] = a
-    # views hold references to the old dicts
-    net.__setstate__(net.__getstate__())
+    # views hold references to the old dicts: recreate them (not via __getstate__,
+    # which is itself code under test)
+    net._nodeview = type(net._nodeview)(net)
+    net._edgeview = type(net._edgeview)(net)
     return net
 
 
